@@ -117,7 +117,7 @@ def run_writers(ctx):
                 adj = rng.randint(1, 9)
                 sh = (rng.choice([0.0, 0.25]), rng.choice([0.5, 0.0078125, 0.125]), rng.choice([0.0, 0.0625])) if exact else \
                      (rng.choice([0.0, 0.003]), rng.choice([0.0004, 0.001]), rng.choice([0.0, 0.0002]))
-                w = _path(rng, NasuWaveguide, exact, adj_scan=adj, adj_scan_shift=sh)
+                w = _path(rng, NasuWaveguide, exact, adj_scan=adj, adj_scan_shift=sh, shrink_correction_factor=rng.choice([1.0, 1.0, 1.25, 0.8]))
                 objs.append(w)
                 mobjs.append({'pts': _pts(w), 'adj_scan': adj, 'shift': [q(v) for v in sh]})
                 n_open_expected += adj * _open_moves(w)
